@@ -28,13 +28,14 @@ type StateOp struct {
 
 type StatePlan struct {
 	DeleteEmpty bool      `json:"delete_empty"` // the finalise flag of this history (EIP-158 on/off)
+	SwitchAt    int       `json:"switch_at"`    // op index at which the flag flips from off to on (a fork activating; -1 = never)
 	Ops         []StateOp `json:"ops"`
 	// Permute re-runs the content-equivalent straight-line history and compares roots
 	Permute uint64 `json:"permute_seed"`
 }
 
 func DecodeStatePlan(raw json.RawMessage) (any, error) {
-	p := &StatePlan{}
+	p := &StatePlan{SwitchAt: -1}
 	err := json.Unmarshal(raw, p)
 	return p, err
 }
@@ -50,8 +51,11 @@ func slotOf(i int) common.Hash {
 }
 
 func GenStatePlan(rng *kernel.RNG, env *kernel.Env, k int) any {
-	p := &StatePlan{DeleteEmpty: rng.Bool(0.5), Permute: rng.Uint64()}
+	p := &StatePlan{DeleteEmpty: rng.Bool(0.5), Permute: rng.Uint64(), SwitchAt: -1}
 	n := rng.Range(5, 60)
+	if !p.DeleteEmpty && rng.Bool(0.4) {
+		p.SwitchAt = rng.Intn(n)
+	}
 	depth := 0
 	codes := []string{"", "00", "6001600055", "ff", "60006000fd00112233445566778899aabbccddeeff00112233445566778899aabbccddeeff"}
 	for i := 0; i < n; i++ {
@@ -121,6 +125,7 @@ type mAccount struct {
 	Code     []byte
 	Storage  map[int]uint64
 	Suicided bool
+	Dirty    int // modified since the last commit: 0 no, 1 yes, 2 only inside reverted snapshots (the implementation may or may not remember)
 }
 
 type mState struct {
@@ -132,7 +137,7 @@ type mState struct {
 func (m *mState) clone() *mState {
 	c := &mState{Acc: map[int]*mAccount{}, Refund: m.Refund, Logs: m.Logs}
 	for i, a := range m.Acc {
-		na := &mAccount{Nonce: a.Nonce, Balance: new(big.Int).Set(a.Balance), Code: append([]byte{}, a.Code...), Storage: map[int]uint64{}, Suicided: a.Suicided}
+		na := &mAccount{Nonce: a.Nonce, Balance: new(big.Int).Set(a.Balance), Code: append([]byte{}, a.Code...), Storage: map[int]uint64{}, Suicided: a.Suicided, Dirty: a.Dirty}
 		for s, v := range a.Storage {
 			na.Storage[s] = v
 		}
@@ -141,25 +146,57 @@ func (m *mState) clone() *mState {
 	return c
 }
 
+// get returns the account for modification (creating it if absent): it is dirty from now on.
 func (m *mState) get(i int) *mAccount {
 	a := m.Acc[i]
 	if a == nil {
 		a = &mAccount{Balance: new(big.Int), Storage: map[int]uint64{}}
 		m.Acc[i] = a
 	}
+	a.Dirty = 1
 	return a
+}
+
+// addBalance: a zero amount creates the account if absent, touches (marks as
+// modified) an existing empty one, and leaves an existing non-empty one alone.
+func (m *mState) addBalance(i int, v uint64) {
+	if v == 0 {
+		if a := m.Acc[i]; a != nil && !a.empty() {
+			return
+		}
+		m.get(i)
+		return
+	}
+	a := m.get(i)
+	a.Balance.Add(a.Balance, new(big.Int).SetUint64(v))
 }
 
 func (a *mAccount) empty() bool { return a.Nonce == 0 && a.Balance.Sign() == 0 && len(a.Code) == 0 }
 
-// finalise applies the end-of-transaction rule.
-func (m *mState) finalise(deleteEmpty bool) {
+// finalise applies the end-of-transaction rule: self-destructed accounts go;
+// with empty-account deletion on, empty accounts that were modified (touched)
+// since the last commit go, untouched ones stay. exists reports what the
+// implementation did for the accounts whose touch was reverted (ambiguous).
+func (m *mState) finalise(deleteEmpty bool, exists func(i int) bool) {
 	for i, a := range m.Acc {
-		if a.Suicided || (deleteEmpty && a.empty()) {
+		switch {
+		case a.Suicided:
 			delete(m.Acc, i)
+		case deleteEmpty && a.empty() && a.Dirty == 1:
+			delete(m.Acc, i)
+		case deleteEmpty && a.empty() && a.Dirty == 2:
+			if exists == nil || !exists(i) {
+				delete(m.Acc, i)
+			}
 		}
 	}
 	m.Refund = 0
+}
+
+func (m *mState) committed() {
+	for _, a := range m.Acc {
+		a.Dirty = 0
+	}
 }
 
 // refRoot computes the state root the specification defines for the content.
@@ -199,6 +236,15 @@ type stateRun struct {
 	flushedM    *mState
 	copySt      *state.StateDB
 	copyM       *mState
+}
+
+// flag is the finalise flag in force at the current step.
+func (r *stateRun) flag() bool {
+	return r.p.DeleteEmpty || (r.p.SwitchAt >= 0 && r.step >= r.p.SwitchAt)
+}
+
+func (r *stateRun) existsFn(st *state.StateDB) func(int) bool {
+	return func(i int) bool { return st.Exist(addrOf(i)) }
 }
 
 func (r *stateRun) add(class, format string, a ...any) {
@@ -297,8 +343,9 @@ func ExecState(t *testing.T, pa any, col *kernel.Collector) []kernel.Violation {
 	}
 	// final: root equals the reference root of the content, and equals the root of
 	// a different history that reaches the same content
-	r.m.finalise(p.DeleteEmpty)
-	root := r.st.IntermediateRoot(p.DeleteEmpty)
+	r.step = len(p.Ops)
+	root := r.st.IntermediateRoot(r.flag())
+	r.m.finalise(r.flag(), r.existsFn(r.st))
 	if want := r.m.refRoot(); root != want {
 		r.add("root-differs-from-reference", "final IntermediateRoot = %x, reference root of the content = %x", root, want)
 		return r.vs
@@ -315,16 +362,26 @@ func (r *stateRun) apply(op StateOp) {
 	switch op.Kind {
 	case "addbal":
 		r.st.AddBalance(addr, new(big.Int).SetUint64(op.Val))
-		a := m.get(op.Addr) // created (touched) even for a zero amount
-		a.Balance.Add(a.Balance, new(big.Int).SetUint64(op.Val))
+		m.addBalance(op.Addr, op.Val)
 	case "subbal":
-		a := m.get(op.Addr)
-		v := new(big.Int).SetUint64(op.Val)
-		if a.Balance.Cmp(v) < 0 {
-			v = new(big.Int).Set(a.Balance)
+		v := op.Val
+		if a := m.Acc[op.Addr]; a == nil || a.Balance.Cmp(new(big.Int).SetUint64(v)) < 0 {
+			v = 0
+			if a != nil {
+				v = a.Balance.Uint64()
+			}
 		}
-		r.st.SubBalance(addr, v)
-		a.Balance.Sub(a.Balance, v)
+		r.st.SubBalance(addr, new(big.Int).SetUint64(v))
+		if v == 0 {
+			// a zero amount creates the account if absent and otherwise changes nothing
+			// (an existing account is not even marked as modified)
+			if m.Acc[op.Addr] == nil {
+				m.get(op.Addr)
+			}
+		} else {
+			a := m.get(op.Addr)
+			a.Balance.Sub(a.Balance, new(big.Int).SetUint64(v))
+		}
 	case "setbal":
 		r.st.SetBalance(addr, new(big.Int).SetUint64(op.Val))
 		m.get(op.Addr).Balance = new(big.Int).SetUint64(op.Val)
@@ -354,6 +411,7 @@ func (r *stateRun) apply(op StateOp) {
 		if a != nil {
 			a.Suicided = true
 			a.Balance = new(big.Int)
+			a.Dirty = 1
 		}
 		r.col.Inc("op_suicide")
 	case "create":
@@ -362,10 +420,10 @@ func (r *stateRun) apply(op StateOp) {
 		if a := m.Acc[op.Addr]; a != nil {
 			bal.Set(a.Balance)
 		}
-		m.Acc[op.Addr] = &mAccount{Balance: bal, Storage: map[int]uint64{}}
+		m.Acc[op.Addr] = &mAccount{Balance: bal, Storage: map[int]uint64{}, Dirty: 1}
 	case "touch":
 		r.st.AddBalance(addr, new(big.Int))
-		m.get(op.Addr)
+		m.addBalance(op.Addr, 0)
 	case "log":
 		r.st.AddLog(&types.Log{Address: addr, Topics: []common.Hash{slotOf(op.Slot)}, Data: []byte{byte(op.Val)}})
 		m.Logs++
@@ -384,17 +442,23 @@ func (r *stateRun) apply(op StateOp) {
 			return
 		}
 		r.st.RevertToSnapshot(r.snaps[op.Snap])
-		r.m = r.msnap[op.Snap]
+		restored := r.msnap[op.Snap]
+		for i, a := range restored.Acc {
+			if cur := m.Acc[i]; cur != nil && a.Dirty == 0 && cur.Dirty != 0 {
+				a.Dirty = 2 // modified only inside the reverted region
+			}
+		}
+		r.m = restored
 		r.snaps, r.msnap = r.snaps[:op.Snap], r.msnap[:op.Snap]
 		r.col.Inc("op_revert")
 	case "finalise":
-		r.st.Finalise(r.p.DeleteEmpty)
-		m.finalise(r.p.DeleteEmpty)
+		r.st.Finalise(r.flag())
+		m.finalise(r.flag(), r.existsFn(r.st))
 		r.snaps, r.msnap = nil, nil
 		r.col.Inc("op_finalise")
 	case "root":
-		got := r.st.IntermediateRoot(r.p.DeleteEmpty)
-		m.finalise(r.p.DeleteEmpty)
+		got := r.st.IntermediateRoot(r.flag())
+		m.finalise(r.flag(), r.existsFn(r.st))
 		r.snaps, r.msnap = nil, nil
 		if want := m.refRoot(); got != want {
 			r.add("root-differs-from-reference", "IntermediateRoot = %x, reference root of the content = %x", got, want)
@@ -402,13 +466,14 @@ func (r *stateRun) apply(op StateOp) {
 		}
 		r.col.Inc("roots_compared")
 	case "commit", "flush-reopen", "crash":
-		m.finalise(r.p.DeleteEmpty)
 		r.snaps, r.msnap = nil, nil
-		root, err := r.st.Commit(r.p.DeleteEmpty)
+		root, err := r.st.Commit(r.flag())
 		if err != nil {
 			r.add("commit-error", "%v", err)
 			return
 		}
+		m.finalise(r.flag(), r.existsFn(r.st))
+		m.committed()
 		if want := m.refRoot(); root != want {
 			r.add("root-differs-from-reference", "Commit = %x, reference root of the content = %x", root, want)
 			return
@@ -471,7 +536,31 @@ func (r *stateRun) apply(op StateOp) {
 		// the two must be independent: change the original, the copy stays
 		r.st.AddBalance(addr, big.NewInt(7))
 		m.get(op.Addr).Balance.Add(m.get(op.Addr).Balance, big.NewInt(7))
-		r.compare(cp, cm, "copy-changed-with-original")
+		if !r.compare(cp, cm, "copy-changed-with-original") {
+			return
+		}
+		// ... and the other way round: diverging writes on the copy (storage of every
+		// account, balances), hashed there, must not leak into the original
+		for i := 0; i < nAddrs; i++ {
+			if cm.Acc[i] == nil {
+				continue
+			}
+			sl := (op.Slot + i) % nSlots
+			v := uint64(1000 + op.Slot + i)
+			cp.SetState(addrOf(i), slotOf(sl), common.BigToHash(new(big.Int).SetUint64(v)))
+			cm.get(i).Storage[sl] = v
+			cp.AddBalance(addrOf(i), big.NewInt(3))
+			cm.get(i).Balance.Add(cm.get(i).Balance, big.NewInt(3))
+		}
+		cpRoot := cp.IntermediateRoot(r.flag())
+		cm.finalise(r.flag(), r.existsFn(cp))
+		if want := cm.refRoot(); cpRoot != want {
+			r.add("copy-root-differs-from-reference", "IntermediateRoot of the copy = %x, reference root of its content = %x", cpRoot, want)
+			return
+		}
+		if !r.compare(r.st, m, "original-changed-with-copy") {
+			return
+		}
 		r.col.Inc("op_copy")
 	}
 }
